@@ -1,17 +1,17 @@
 #!/bin/sh
-# developer helper: confirm the three changes a sub-agent left in /tmp/wt/<ID>-out as seeds <ID>-r6-<k>; extra args = further checks to run
+# developer helper: confirm the three changes a sub-agent left in /tmp/wt/<ID>-out as seeds <ID>-r${ROUND:-6}-<k>; extra args = further checks to run
 ID="$1"; shift
 for k in 1 2 3; do
-  D=/tmp/wt/$ID-out
+  D=${WT:-/tmp/wt}/$ID-out
   [ -f $D/change$k.diff ] || continue
   T=$(grep -m1 "^## Change $k" $D/README.md | sed 's/^## //')
-  python3 /verif/tools/confirm_seed.py $ID $ID-r6-$k $D/change$k.diff $D/demo$k.py "$T" $ID "$@" > /tmp/wt/$ID-confirm$k.json 2>&1
+  python3 /verif/tools/confirm_seed.py $ID $ID-r${ROUND:-6}-$k $D/change$k.diff $D/demo$k.py "$T" $ID "$@" > ${WT:-/tmp/wt}/$ID-confirm$k.json 2>&1
   TITLE="$T" python3 - <<PY
 import json, os
 try:
-    r=json.load(open('/tmp/wt/$ID-confirm$k.json'))
-    print('$ID-r6-$k', 'confirmed' if r['confirmed'] else 'NOT-CONFIRMED', {c:(v['exit'],v['wall_s']) for c,v in r['detected'].items()}, '|', os.environ.get('TITLE', ''))
+    r=json.load(open('${WT:-/tmp/wt}/$ID-confirm$k.json'))
+    print('$ID-r${ROUND:-6}-$k', 'confirmed' if r['confirmed'] else 'NOT-CONFIRMED', {c:(v['exit'],v['wall_s']) for c,v in r['detected'].items()}, '|', os.environ.get('TITLE', ''))
     if not r['confirmed']: print(json.dumps(r['ran'])[:1500])
-except Exception as e: print('$ID-r6-$k', 'ERR', e)
+except Exception as e: print('$ID-r${ROUND:-6}-$k', 'ERR', e)
 PY
 done
